@@ -100,7 +100,7 @@ fn selector() -> BoxedStrategy<String> {
 }
 
 fn rule() -> BoxedStrategy<String> {
-    (selector(), proptest::collection::vec(prop_oneof![6 => decl(), 1 => Just("/* c */".to_string()), 1 => Just("/* multi\n   line */".to_string())], 1..4)).prop_map(|(s, d)| format!("{s} {{\n  {}\n}}", d.join("\n  "))).boxed()
+    (selector(), proptest::collection::vec(prop_oneof![6 => decl(), 1 => Just("/* c */".to_string()), 1 => Just("/* multi\n   line */".to_string()), 1 => crate::gen::one_of(&["/** doc **/", "/* stars ***/", "/***/", "/****/", "/* a * b ** c */", "/*! keep **/", "/**/", "/* / * / */", "/*\n * x\n **/"])], 1..4)).prop_map(|(s, d)| format!("{s} {{\n  {}\n}}", d.join("\n  "))).boxed()
 }
 
 fn item() -> BoxedStrategy<String> {
@@ -108,6 +108,7 @@ fn item() -> BoxedStrategy<String> {
     prop_oneof![
         6 => rule(),
         1 => Just("/* top comment */".to_string()),
+        1 => crate::gen::one_of(&["/** banner **/", "/***** x *****/", "/* end ***/", "/***/", "/*! license **/"]),
         1 => string_content().prop_map(|s| format!("/* {} */", s.replace("*/", "* /").replace('\\', "/").replace("#{", "# {").replace('\r', " "))),
         2 => (one_of(&["screen", "print and (min-width: 100px)", "(max-width: 30em)", "not all and (monochrome)", "screen, print"]), rules.clone()).prop_map(|(q, r)| format!("@media {q} {{\n{r}\n}}")),
         1 => (one_of(&["(display: grid)", "not (display: grid)", "(a: b) and (c: d)"]), rules.clone()).prop_map(|(q, r)| format!("@supports {q} {{\n{r}\n}}")),
